@@ -28,14 +28,14 @@ def table(ctx, thorough):
 
 def machine(ctx, depth):
     return ctx.tlc("ApiAuthGen", cfg_text=vlib.cfg_text(
-        constants={"MaxLen": depth, "Emit": False, "Small": True, "AuthSet": True},
+        constants={"MaxLen": depth, "Emit": False, "Small": True, "AuthSet": True, "Storms": True},
         invariants=["LawsHold", "RevokedKeysDead"], properties=["SessionsMonotone"], view="View"), timeout=2400,
         workers=4 if depth < 3 else vlib.NCPU)
 
 
-def simulate(ctx, k, num, authset):
+def simulate(ctx, k, num, authset, storms=False):
     r = ctx.tlc("ApiAuthGen", cfg_text=vlib.cfg_text(
-        constants={"MaxLen": 30, "Emit": True, "Small": False, "AuthSet": authset}),
+        constants={"MaxLen": 30, "Emit": True, "Small": False, "AuthSet": authset, "Storms": storms}),
         mode="simulate", num=num, depth=34, seed=ctx.seed * 101 + k, timeout=2400, count=False)
     return r.emitted()
 
@@ -65,10 +65,12 @@ def execute(ctx, scripts):
         if not idx:
             continue
         res = vlib.drive(ctx, binp, [scripts[i] for i in idx], chunk=max(1, min(24, (len(idx) + 47) // 48)),
-                         timeout=900, args=args)
+                         timeout=420, args=args)
         for i, r in zip(idx, res):
             evs = [e for e in r["events"] if e.get("e") != "try"]
-            if r["crashed"]:
+            if r["crashed"] and "rc=5" in r["crashed"]:
+                pass    # a configuration change did not return: recorded as an event, judged by the trace spec
+            elif r["crashed"]:
                 why = r["crashed"]
                 if "rc=3" in why or "rc=4" in why or "setup:" in why or "harness:" in why:
                     raise vlib.Inconclusive("driver apiauth failed: " + why[:800])
@@ -93,13 +95,23 @@ def execute(ctx, scripts):
 
 
 def req_sig(ev):
-    """Stable signature of a request: the outermost credential class that is present and the outcome."""
+    """Stable signature of a request: a cross-origin class if present, else the outermost credential class
+    that is present, and the outcome."""
     q = ev.get("q", {})
     ob = ev.get("ob")
     out = "-"
     if ob is not None:
-        out = "err" if ob.get("err") else "%s/%s" % ("inv" if ob.get("inv") else "noinv", ob.get("st"))
-    if q.get("azk") != "none":
+        if ob.get("err"):
+            out = "err"
+        elif ob.get("inv"):
+            out = "invoked"
+        elif ob.get("st") in (401, 403, 404, 405, 500):
+            out = "refused"
+        else:
+            out = "noinv/%s" % ob.get("st")
+    if q.get("origin") in ("local", "portless", "foreign", "bad", "garbage"):
+        what = "origin=%s" % q.get("origin")
+    elif q.get("azk") != "none":
         what = "az=%s" % q.get("azk")
     elif q.get("ckk") != "none":
         what = "ck=%s" % q.get("ckk")
@@ -115,6 +127,8 @@ def ev_sig(ev):
         return req_sig(ev)
     if ev.get("e") == "apipanic":
         return "apipanic:%s:%s:st=%s:probe=%s" % (ev.get("kind"), ev.get("pv"), ev.get("st"), ev.get("probe"))
+    if ev.get("e") in ("keys", "dev", "storm"):
+        return "config:%s:%s" % (ev.get("e"), ev.get("err") or "ok")
     return "event:%s" % ev.get("e")
 
 
@@ -140,13 +154,15 @@ def run(ctx):
     #    reachable state of the configuration/session machine x small request space, random histories
     nsim = 4 if quick else 16
     per_sim = 90 if quick else 400
-    jobs = [("table",), ("machine",)] + [("sim", k) for k in range(nsim)]
+    jobs = [("table",), ("machine",)] + [("sim", k) for k in range(nsim)] + [("storm",)]
 
     def work(j):
         if j[0] == "table":
             return table(ctx, not quick)
         if j[0] == "machine":
             return machine(ctx, 2 if quick else 3)
+        if j[0] == "storm":   # a few histories with concurrent configuration changes
+            return simulate(ctx, 99, 8 if quick else 32, True, storms=True)
         return simulate(ctx, j[1], per_sim, j[1] % 4 != 3)
     out = ctx.pmap(work, jobs)
     (tr, groups), mr = out[0], out[1]
